@@ -50,6 +50,10 @@ func nxConfigs(part string, thorough bool) []*nxCfg {
 		return []*nxCfg{
 			{Name: "apply-lag-crash", N: 3, MaxDev: pick(2, 3), Prefix: nxWarm, Script: []string{"W1", "W2", "W3", "H1", "C2", "H1", "W1", "H1"}, Crashes: 1, Drops: 2, LazyApplies: 1, Timeouts: 1, Dups: 1, Horizon: 200},
 			{Name: "leaderchange-restart", N: 3, MaxDev: pick(2, 3), Prefix: nxWarm, Script: []string{"W1", "T2", "W2", "H2", "C1", "H2", "W3", "H2"}, Crashes: 1, Drops: 2, LazyApplies: 1, Reorders: 1, Horizon: 200},
+			{Name: "pool-stop-during-snapshot", N: 3, RealPool: true, SnapshotEntries: 2, MaxDev: pick(2, 3), Prefix: nxWarm,
+				Script: []string{"W1", "W2", "W1", "H1", "W2", "S2", "W1", "S1"}, HoldJobs: 1, Stops: 1, Crashes: 1, LazyApplies: 1, Horizon: 250},
+			{Name: "pool-restart-from-snapshot", N: 3, RealPool: true, SnapshotEntries: 2, MaxDev: pick(2, 3), Prefix: nxWarm,
+				Script: []string{"W1", "W2", "W1", "H1", "C2", "W2", "H1", "C1", "T2", "H2", "W3", "H2"}, HoldJobs: 1, Crashes: 1, LazyApplies: 1, Drops: 1, Horizon: 250},
 		}
 	case "c12":
 		return []*nxCfg{
@@ -76,7 +80,8 @@ func nxConfigs(part string, thorough bool) []*nxCfg {
 		}
 	case "c01":
 		return []*nxCfg{
-			{Name: "w-r-leaderchange", N: 3, MaxDev: pick(2, 3), Prefix: nxWarm, Script: []string{"W1", "R2", "W2", "R1", "H1"}, Timeouts: 2, Crashes: 1, Drops: 3, Reorders: 1, LazyApplies: 1, Reads: 1, Writes: 1, Heartbeats: 1, Transfers: 1, Horizon: 150},
+			{Name: "w-r-leaderchange", N: 3, MaxDev: pick(2, 3), Prefix: nxWarm, Script: []string{"W1", "R2", "W2", "R1", "H1"}, Timeouts: pick(1, 2), Crashes: 1, Drops: 2, Reorders: 1, LazyApplies: 1, Reads: pick(0, 1), Transfers: pick(0, 1), Horizon: 150},
+			{Name: "partitioned-old-leader", N: 3, MaxDev: pick(2, 3), Prefix: nxWarm, Script: []string{"W1", "T2", "H2", "W2", "H2", "R1", "H1", "R3", "H2"}, Partitions: 2, Heartbeats: 1, LazyApplies: 1, Horizon: 200},
 			{Name: "newleader-read", N: 3, MaxDev: pick(2, 3), Prefix: nxWarm, Script: []string{"W1", "T2", "R2", "H2"}, Reads: 1, LazyApplies: 1, Reorders: 1, Drops: 2, Horizon: 150},
 			{Name: "reads-follower", N: 3, MaxDev: pick(2, 3), Prefix: nxWarm, Script: []string{"W2", "R3", "R1", "W3", "R2", "H1"}, Timeouts: 2, Crashes: 1, Drops: 3, LazyApplies: 1, Heartbeats: 1, Horizon: 150},
 		}
@@ -127,6 +132,14 @@ func TestVerifNodex(t *testing.T) {
 			}
 			c := newC(cfg)
 			fmt.Println("=== ", cfg.Name, c.summary())
+			if hh := os.Getenv("VERIF_DEBUG_HOLD"); hh != "" {
+				var id uint32
+				fmt.Sscanf(hh, "%d", &id)
+				saved := c.cfg.MaxDev
+				c.cfg.MaxDev = 9
+				fmt.Println("hold:", c.Step(nxev(nxHoldJob, id, 0)))
+				c.cfg.MaxDev = saved
+			}
 			for i := 0; i < 2000; i++ {
 				e, ok := c.defaultEvent()
 				if !ok {
@@ -206,6 +219,9 @@ func (c *nxCluster) summary() string {
 		}
 		vp := raft.VPeer{P: &h.node.p}
 		out += fmt.Sprintf("[%d role=%d t=%d c=%d last=%d app=%d q=%v] ", h.id, vp.Role(), vp.Term(), vp.Committed(), vp.LastIndex(), h.node.sm.GetLastApplied(), h.node.qs.quiesced())
+		if h.ps != nil {
+			out += fmt.Sprintf("{job=%v held=%v ss=%d saved=%d} ", c.jobScheduled(h), h.ps.held, h.node.ss.getIndex(), c.snapshotsSaved)
+		}
 	}
 	out += fmt.Sprintf("inflight=%d ops=", len(c.msgs))
 	for _, op := range c.ops {
